@@ -303,6 +303,20 @@ def check_case(ctx, c):
                 save_circuit(orig, buf)
                 compare(desc, "save to an open file", orig, circuit_from_dict(json.loads(buf.getvalue())), out, matrices=False)
                 other = Circuit(n_qubits=2)
+                if c["defs"]:
+                    # a set whose members define a gate of the SAME name differently: each member comes back with its own definition
+                    try:
+                        alt_m = Circuit([build(o["g"], False, alt=True)(*o["qs"]) for o in c["ops"]], n_qubits=c["n"])
+                        back_alt = circuitset_from_dict(json.loads(json.dumps(to_dict([orig, alt_m, orig]))))
+                        if len(back_alt) == 3:
+                            compare(desc + " [first member of a set whose second member defines the same gate name differently]", "circuit set", orig, back_alt[0], out)
+                            compare(desc + " [second member of a set: another definition under the same gate name]", "circuit set", alt_m, back_alt[1], out)
+                        else:
+                            out.append(("circuitset:length", "%s: a set of 3 circuits came back with %d" % (desc, len(back_alt))))
+                    except Timeout:
+                        raise
+                    except Exception as ex:
+                        out.append(("circuitset:alt-raises", "%s: a set with two definitions of one gate name raised %s: %s" % (desc, type(ex).__name__, str(ex)[:150])))
                 cs = [orig, other, orig]
                 back_set = circuitset_from_dict(json.loads(json.dumps(to_dict(cs))))
                 save_circuitset(cs, p)
@@ -345,7 +359,7 @@ def check_case(ctx, c):
     return uniq
 
 
-POISON = ["x", "theta[1]", "y[0]", "gamma[2]", "beta[0]", "a[1]", "b[0]", "I"]
+POISON = ["x", "theta[1]", "y[0]", "gamma[2]", "beta[0]", "a[1]", "b[0]", "I", "J", "j", "inf", "nan", "E", "oo", "N", "S", "Q"]
 
 
 def check_process_history(ctx, h):
